@@ -1181,5 +1181,13 @@ pub fn run(tier: &str, seed: u64, out: &Path) -> i32 {
         part_search(&mut o, &mut r2, tier);
     }
     o.notes.push("generated universe = 17 templates x holes x 13 comment styles x 10 widths x 30 option sets: quick runs every (hole, style) with 4 seeded (width, option set) choices, thorough with 60 (the whole universe of 2,671,500 elements was measured clean with --tier sweep-gen); fixture universe = fixtures with a non-doc comment x {base, 7 widths, 20 option singles}; elements listed in corpus/c03_dirty.txt run as probes".into());
+    // the list machinery (itemizing of gaps, write_list with its comment oracles) and comment re-flowing (StringFmt / CommentFmt)
+    {
+        let th = tier == "thorough";
+        let mut r = Rng::new(seed ^ 0x1157);
+        crate::lists_corr::itemize_cases(&mut o, &mut r, th);
+        crate::lists_corr::cases(&mut o, &mut r, th);
+        crate::strings_corr::cases_c03(&mut o, &mut r, th);
+    }
     o.finish(out, jobs())
 }
